@@ -100,6 +100,8 @@ def main(pid, tier, seed):
         rule_dirs.append((d, desc))
     d = os.path.join(work, 'long')
     rule_dirs.append((d, expand.long_alpha_ruleset(rng, d)))
+    d = os.path.join(work, 'near')
+    rule_dirs.append((d, expand.near_tie_ruleset(rng, d)))
     if pid == 'C04':
         for k in range(2 if tier == 'quick' else 20):
             d = os.path.join(work, 'dense%d' % k)
@@ -135,6 +137,31 @@ def main(pid, tier, seed):
                                    'stdout': [expand.cps(x) for x in noise.split('\n')] if noise else []})
                     meta[tid] = {'ruleset': desc, 'flags': flags, 'N': N, 'via': 'CrackingSession.run'}
                 limit_jobs.append((d, desc, flags, full))
+
+    # ---- C09: status / help requests while guessing, on sessions of every age: nothing but guesses on stdout ----
+    if pid == 'C09':
+        from . import gated
+        n_status = 0
+        for d, desc, flags, full in limit_jobs[:3 if tier == 'quick' else 20]:
+            if not full or len(full) > 2000:
+                continue
+            for script, age in ((['', 'block'], 3 * 86400 + 4000), (['h', '', 'block'], 59), (['', '', 'block'], 9 * 86400 + 61),
+                                (['x', '', 'block'], 86400 + 5)):
+                fn = os.path.join(d, 'st.sav')
+                pcfg = ptq.load_pcfg(d, save_file=fn, **flags)
+                run = gated.GatedRun(pcfg, session.new_save_config(), fn, script, age=age)
+
+                def burst(enabled, step, gates):
+                    return 'K' if (step >= 9 and 'K' in enabled) else ('M' if 'M' in enabled else enabled[0])   # after the first guesses
+                r = run.run(burst)
+                noise = r.get('stdout_noise', '')
+                tid += 1
+                traces.append({'tid': tid, 'kind': 'limit', 'N': len(full) + 1, 'full': [expand.cps(s_) for s_ in full],
+                               'lines': [expand.cps(s_) for s_ in r['lines']], 'hasout': bool(noise),
+                               'stdout': [expand.cps(x) for x in noise.split('\n')] if noise else []})
+                meta[tid] = {'ruleset': desc, 'flags': flags, 'N': len(full) + 1, 'via': 'real keyboard thread, status requests, session age %d s' % age,
+                             'script': script, 'stdout_noise': noise[:80]}
+                n_status += 1
 
     # ---- C09: --limit on a resumed session (--load), also when the session was cut inside a Markov level ----
     if pid == 'C09':
